@@ -51,6 +51,7 @@ pub fn run(ctx: &Ctx) -> i32 {
     scalar_unary(ctx, &r);
     reductions(ctx, &r);
     closure(ctx, &r);
+    dense_grid(ctx);
     ext_all(ctx);
     batch_inverse(ctx);
     packed(ctx, &r);
@@ -328,6 +329,79 @@ fn reductions(ctx: &Ctx, r: &[u64]) {
             chk(ctx, "from_canonical_i64", format!("ci64 {s}"), guarded(|| F::from_canonical_i64(s).0), want);
         }
     }
+}
+
+/// Dense limb grid: every u64 whose two 32-bit halves come from a limb alphabet L (carry / borrow /
+/// EPSILON-correction conditions are conditions on these halves and on the halves of the 128-bit
+/// product), all ordered pairs for add/sub/mul and all triples for multiply_accumulate. No per-case
+/// allocation on the agreeing path; a disagreeing (or panicking) case is re-run through `chk`.
+fn dense_grid(ctx: &Ctx) {
+    let th = ctx.tier.thorough();
+    let mut limbs: Vec<u64> = vec![0, 1, 2, 0xFFFF, 0x1_0000, 0x7FFF_FFFF, 0x8000_0000, 0x8000_0001, 0xFFFF_0000, 0xFFFF_FFFD, 0xFFFF_FFFE, 0xFFFF_FFFF];
+    if th {
+        limbs.extend_from_slice(&[3, 4, 0xFF, 0x100, 0x7FFF, 0x8000, 0x1_0001, 0x00FF_FFFF, 0x0100_0000, 0x3FFF_FFFF, 0x4000_0000, 0x5555_5555, 0x7FFF_FFFE, 0xAAAA_AAAA, 0xC000_0000, 0xFFFE_FFFF, 0xFFFF_00FF, 0xFFFF_FF00, 0xFFFF_FFF0, 0xFFFF_FFFC, 5, 7, 0xFFFE, 0x1_FFFF, 0x7FFF_0000, 0x8000_FFFF, 0x7FFF_FFFD, 0x8000_0002, 0xFFFF_FFFB, 0xFFFF_FFF8, 0xFFFF_8000, 0xFFFF_7FFF, 0x1234_5678, 0xFEDC_BA98, 0x0000_FFFF ^ 0xFFFF_FFFF, 0x2000_0000]);
+    }
+    let limbs = dedup(limbs);
+    let mut g: Vec<u64> = Vec::with_capacity(limbs.len() * limbs.len());
+    for &hi in &limbs {
+        for &lo in &limbs {
+            g.push((hi << 32) | lo);
+        }
+    }
+    let n = g.len();
+    ctx.sample(json!({"dense_grid": {"limbs": limbs.len(), "values": n, "pairs": n * n, "mac_triples": n * n * n}}));
+    ctx.count("dense_grid_values", n as u64);
+    // pairs
+    par_for(n, |i| {
+        let a = g[i];
+        let fa = F(a);
+        let fast = guarded(|| {
+            let mut bad = Vec::new();
+            for &b in &g {
+                let fb = F(b);
+                if (fa + fb).0 % P != addm(a, b) || (fa - fb).0 % P != subm(a, b) || (fa * fb).0 % P != mulm(a, b) {
+                    bad.push(b);
+                }
+            }
+            bad
+        });
+        ctx.tick(3 * n as u64);
+        let redo: Vec<u64> = match fast {
+            Ok(bad) => bad,
+            Err(_) => g.clone(),
+        };
+        for b in redo {
+            let fb = F(b);
+            chk(ctx, "add", format!("add {a} {b}"), guarded(|| (fa + fb).0), addm(a, b));
+            chk(ctx, "sub", format!("sub {a} {b}"), guarded(|| (fa - fb).0), subm(a, b));
+            chk(ctx, "mul", format!("mul {a} {b}"), guarded(|| (fa * fb).0), mulm(a, b));
+        }
+    });
+    ctx.class("dense_grid:pairs");
+    // multiply_accumulate on all ordered triples
+    let acc: Vec<u64> = g.clone();
+    par_for(n * n, |ij| {
+        let (x, y) = (g[ij / n], g[ij % n]);
+        let xy = mulm(x, y);
+        let fast = guarded(|| {
+            let mut bad = Vec::new();
+            for &a in &acc {
+                if F(a).multiply_accumulate(F(x), F(y)).0 % P != addm(a, xy) {
+                    bad.push(a);
+                }
+            }
+            bad
+        });
+        ctx.tick(acc.len() as u64);
+        let redo: Vec<u64> = match fast {
+            Ok(bad) => bad,
+            Err(_) => acc.clone(),
+        };
+        for a in redo {
+            chk(ctx, "multiply_accumulate", format!("mac {a} {x} {y}"), guarded(|| F(a).multiply_accumulate(F(x), F(y)).0), addm(a, xy));
+        }
+    });
+    ctx.class("dense_grid:mac_triples");
 }
 
 /// BFS over raw u64 representations reachable from R by applying operators with R operands.
